@@ -195,8 +195,14 @@ func c06Long(c *mc.Ctx) {
 	if long > maxLong {
 		return // at most one (thorough: two) very long trains per sequence (bounds the cost)
 	}
+	c06Decoy = c.Bool()
+	defer func() { c06Decoy = false }()
 	c06Drive(c, mtu, pi, absID, start, ops)
 }
+
+// c06Decoy makes c06Drive use an unrelated second packetizer (own sequencer, own payloader, other
+// SSRC, abs-send-time with another id) before every call: instances must not influence each other.
+var c06Decoy bool
 
 func c06Drive(c *mc.Ctx, mtu, pi, absID int, start c06Start, ops []c06Op) {
 
@@ -252,7 +258,16 @@ func c06Drive(c *mc.Ctx, mtu, pi, absID int, start c06Start, ops []c06Op) {
 			c.Failf("timestamp", "%s: %s packet %d has timestamp %#x, want %#x", hist(), what, i, pk.Timestamp, ts)
 		}
 	}
+	var decoy rtp.Packetizer
+	if c06Decoy {
+		decoy = rtp.NewPacketizer(uint16(mtu), 111, 0x0D0D0D0D, c06Payloaders[pi].mk(), rtp.NewFixedSequencer(start.seq^0x5555), 8000)
+		decoy.EnableAbsSendTime(7)
+	}
 	for _, op := range ops {
+		if decoy != nil {
+			decoy.Packetize(c06Payloaders[pi].shape(B+3), 111)
+			decoy.SkipSamples(5)
+		}
 		switch op.kind {
 		case 0:
 			n := 0
